@@ -324,8 +324,19 @@ func driveC19(o opts) error {
 					}
 					grid++
 					note("decode "+t.name, variant)
-					if _, class, msg := guarded(func() (interface{}, error) { return t.decode(b) }); class == 2 {
+					out, class, msg := guarded(func() (interface{}, error) { return t.decode(b) })
+					if class == 2 {
 						goFail("decode "+t.name, fmt.Sprintf("decoding %s as %s panics: %s", string(b), t.name, msg), variant)
+					}
+					// the hostile leaf on its own (null, {}, [], a bare atom ... as the whole input) also goes to the model
+					if pos == -1 && t.coq != "" && class != 2 {
+						outTerm := "GNull"
+						if class == 0 && !lateTargets[t.coq] {
+							outTerm = gvalTerm(syms, out)
+						}
+						w.Add(emit.Case{Term: fmt.Sprintf("mkCase %s (%s) %d%%nat (%s)", t.coq, gvalTerm(syms, lowerUUIDTagged(variant)), class, outTerm),
+							JSON: map[string]interface{}{"target": t.name, "input": variant, "class": class, "message": msg},
+							Key:  "grid" + t.name + string(b), Nontrivial: true, Class: ""})
 					}
 				}
 				// ... and as the value of every member a schema or request object may have, at the top and one level down
